@@ -43,9 +43,9 @@ def mk(mps, buf, big):
 # (max_packet_size, buffer_size).  max_packet_size = 1 cannot show a truncated packet, so the smallest lock-step
 # configuration of the quick tier is (2, 2): "exactly max_packet_size entries free" is its initial state.
 SMALL_QUICK = [(2, 2)]
-SMALL_THOROUGH = [(1, 1), (1, 2), (2, 2), (2, 3)]
+SMALL_THOROUGH = [(1, 1), (1, 2), (2, 2)]      # (2, 3) also closes (18k+ product states) but takes ~10 min
 BIG_QUICK = [(2, 3), (8, 23), (64, 128)]
-BIG_THOROUGH = [(2, 4), (3, 5), (4, 8), (4, 11), (8, 16), (8, 23), (64, 128), (64, 191), (200, 512), (512, 1024)]
+BIG_THOROUGH = [(2, 3), (2, 4), (3, 5), (4, 8), (4, 11), (8, 16), (8, 23), (64, 128), (64, 191), (200, 512), (512, 1024)]
 
 
 def targets(tier):
@@ -297,9 +297,13 @@ ASSUMPTIONS = [
     "isn't max_packet_size space in the endpoint buffer, additional data will be silently dropped'): a packet is admitted iff at "
     "least max_packet_size entries are free in the cycle in which its first byte reaches the buffer (one cycle after its second "
     "byte, or its end, was seen); free = buffer_size - undelivered entries - 1 if an entry was delivered in the previous cycle",
-    "the output stream is compared while stream.valid is high (payload/first/last are don't-care otherwise)",
+    "the output stream is compared while stream.valid is high (payload/first/last are don't-care otherwise; the targets expose "
+    "them masked by stream.valid through a wrapper in props/C16.py)",
+    "the specification oracle (cmon) keeps its state in a bounded encoding and stops judging a trace at the first cycle that "
+    "breaks the environment assumption or at any packet, addressed or not, longer than max_packet_size bytes; correspondence "
+    "(model vs simulator) has no such limits except that rx_complete and rx_invalid are never generated for the same packet",
     "lock-step tie configurations (max_packet_size, buffer_size): (2,2) quick -- the smallest configuration in which a packet can "
-    "be truncated; (1,1) (1,2) (2,2) (2,3) thorough; explicit input alphabets (see obligation_list; strobes as "
+    "be truncated; (1,1) (1,2) (2,2) thorough; explicit input alphabets (see obligation_list; strobes as "
     "USBDataPacketReceiver drives them: not while rx.valid is high, never both); correspondence and specification-oracle runs "
     "additionally at (2,3) (8,23) (64,128) quick / up to (512,1024) thorough, with full-width random payloads; endpoint_number = 1",
     "DEFECT: the unchanged tree violates the property (findings/C16-truncated-packet.json, confirmed on Amaranth's simulator); "
